@@ -4,6 +4,7 @@ import XyzModel.Core
 import XyzModel.Value
 import XyzModel.Crop
 import XyzModel.ToDs
+import XyzModel.Sampler
 /-! JSON-lines driver over the executable models (DESIGN.md Appendix B). One request per line, one reply per line. -/
 open Lean
 
@@ -189,6 +190,27 @@ def opToDs (j : Json) : Json :=
     | .error e => err (coreErr e)
     | .ok ds => dsJson kind ds
 
+/-! ### sampler histories -/
+
+def rowsJson (kind : Value.Val) (t : Option (List (Sampler.Row Sym))) : Json :=
+  match t with
+  | none => Json.null
+  | some rows => Json.arr (rows.map fun r =>
+      Json.mkObj [("loc", toJson r.loc), ("outputs", Json.arr (r.outputs.map (symJson kind)).toArray)]).toArray
+
+def opSampler (j : Json) : Json :=
+  let kind := valOfJson (getObj j "kind")
+  let k := max 1 (getNat j "outputs")
+  let f : List Nat → List Sym := fun loc => (List.range k).map (Sym.c loc)
+  let (_, obs) := (getArr j "ops").foldl (fun (acc : Sampler.St Sym × Array Json) op =>
+    let o : Sampler.Op := match getStr op "op" with
+      | "sample" => .sample (((op.getObjValAs? (List (List Nat)) "draws").toOption).getD [])
+      | _ => .newSampler
+    let s' := Sampler.step f acc.1 o
+    (s', acc.2.push (Json.mkObj [("mem", rowsJson kind (Sampler.fullDf s')), ("disk", rowsJson kind s'.disk)])))
+    (({} : Sampler.St Sym), #[])
+  Json.mkObj [("obs", Json.arr obs)]
+
 /-! ### crop histories -/
 
 def cropErr : Crop.Err → String
@@ -331,6 +353,7 @@ def handle (j : Json) : Json :=
   | "core" => opCore j
   | "crop" => opCrop j
   | "tods" => opToDs j
+  | "sampler" => opSampler j
   | "ping" => Json.mkObj [("pong", true)]
   | o => err s!"bad-op {o}"
 
